@@ -85,7 +85,8 @@ def impl_op(c):
         te.krylov_exp = saved
     kw = rec["kw"]
     flags = (len(rec["args"]) == 0 and kw.get("norm_tolerance") == c["tol"] and kw.get("exp_tolerance") == c["tol"]
-             and kw.get("is_hermitian") is False and "max_krylov_dim" not in kw and rec["v_is_input"]
+             and kw.get("is_hermitian") is False and set(kw) <= {"norm_tolerance", "exp_tolerance", "is_hermitian",
+                                                                  "max_krylov_dim"} and rec["v_is_input"]
              and ret[0] is rec["out"] and type(ret[1]).__name__ == "RydbergLindbladian")
     return ([complex(x) for x in rec["out"].reshape(-1).tolist()],
             [complex(x) for x in rec["out2"].reshape(-1).tolist()], cs, sn, flags)
